@@ -19,7 +19,7 @@ CombKinds == {"And2", "Or2", "Not", "Buf", "ZeroExtend", "Bit", "BitsLSBF", "Bit
               \* abstract leaf shapes used by the kernel models
               "Xor2"}
 
-SeqKinds == {"Reg", "SynchronousMemory", "Sequence", "Toggle"}
+SeqKinds == {"Reg", "SynchronousMemory", "Sequence", "Toggle", "UARTSerializer", "UARTDeserializer", "ClockSyncFSM"}
 
 RECURSIVE ConcatFold(_, _, _)
 \* fold v = (v << width(x)) | x over inputs k..Len
@@ -83,6 +83,9 @@ SeqInit(kind, p) ==
       [] kind = "SynchronousMemory" -> [a \in 1..Pow2(p[1]) |-> 0]
       [] kind = "Sequence" -> 0
       [] kind = "Toggle" -> 0
+      [] kind = "UARTSerializer" -> <<0, 0, 0>>        \* state, count, txv
+      [] kind = "UARTDeserializer" -> <<0, 0, 0, 0>>   \* state, count, state_v, temp
+      [] kind = "ClockSyncFSM" -> 0
 
 RegNext(p, s, iv) ==
     LET hasE == p[1] = 1
@@ -91,15 +94,48 @@ RegNext(p, s, iv) ==
         r == IF hasR THEN iv[IF hasE THEN 3 ELSE 2] ELSE 0
     IN  IF r = 1 THEN p[3] ELSE IF e # 0 THEN iv[1] ELSE s
 
+\* result: [st, prep, skip]; prep has one entry per output port, ports in `skip` are not prepared at this edge
 SeqClock(kind, p, s, iv) ==
-    CASE kind = "Reg" -> LET n == RegNext(p, s, iv) IN [st |-> n, prep |-> <<n>>]
+    CASE kind = "Reg" -> LET n == RegNext(p, s, iv) IN [st |-> n, prep |-> <<n>>, skip |-> {}]
       [] kind = "SynchronousMemory" ->
             [st |-> IF iv[3] # 0 THEN [s EXCEPT ![iv[2] + 1] = iv[4]] ELSE s,
-             prep |-> <<s[iv[1] + 1]>>]
+             prep |-> <<s[iv[1] + 1]>>, skip |-> {}]
       [] kind = "Sequence" ->
             LET n == Len(p) - 1 IN
             [st |-> IF p[1] = 1 THEN (IF s < n - 1 THEN s + 1 ELSE s) ELSE (s + 1) % n,
-             prep |-> <<p[s + 2]>>]
-      [] kind = "Toggle" -> [st |-> IF iv[1] = 1 THEN 1 - s ELSE s, prep |-> <<s>>]
+             prep |-> <<p[s + 2]>>, skip |-> {}]
+      [] kind = "Toggle" -> [st |-> IF iv[1] = 1 THEN 1 - s ELSE s, prep |-> <<s>>, skip |-> {}]
+      [] kind = "UARTSerializer" ->
+            \* ins: valid, v, uart_clock_posedge ; outs: ready, tx
+            LET st == s[1]  cnt == s[2]  txv == s[3]  valid == iv[1]  v == iv[2]  pe == iv[3] IN
+            (CASE st = 0 -> [st |-> <<1, cnt, txv>>, prep |-> <<1, 1>>, skip |-> {}]
+              [] st = 1 -> IF valid # 0 THEN [st |-> <<2, cnt, v>>, prep |-> <<0, 0>>, skip |-> {2}]
+                           ELSE [st |-> s, prep |-> <<0, 0>>, skip |-> {1, 2}]
+              [] st = 2 -> [st |-> <<IF pe # 0 THEN 3 ELSE 2, cnt, txv>>, prep |-> <<0, 0>>, skip |-> {1, 2}]
+              [] st = 3 -> [st |-> <<IF pe # 0 THEN 4 ELSE 3, 7, txv>>, prep |-> <<0, 0>>, skip |-> {1}]
+              [] st = 4 -> [st |-> IF pe # 0 THEN <<IF cnt = 0 THEN 5 ELSE 4, IF cnt = 0 THEN 0 ELSE cnt - 1, txv \div 2>> ELSE s,
+                            prep |-> <<0, txv % 2>>, skip |-> {1}]
+              [] st = 5 -> [st |-> <<IF pe # 0 THEN 0 ELSE 5, cnt, txv>>, prep |-> <<0, 1>>, skip |-> {1}])
+      [] kind = "UARTDeserializer" ->
+            \* ins: rx, ready, rx_sample ; outs: valid, v, clock_desync
+            LET dst == s[1]  cnt == s[2]  sv == s[3]  tmp == s[4]  rx == iv[1]  ready == iv[2]  smp == iv[3]
+                \* first FSM (frame reception): m = [st, cnt, sv, tmp, pv (v prepared?), v, pd (desync prepared?), d]
+                m == IF dst = 0 THEN [st |-> IF smp # 0 /\ rx = 0 THEN 2 ELSE 0, cnt |-> 0, sv |-> sv, tmp |-> 0,
+                                     pv |-> FALSE, v |-> 0, pd |-> TRUE, d |-> 0]
+                     ELSE IF smp # 0 THEN
+                          (IF cnt = 8 THEN [st |-> 0, cnt |-> cnt, sv |-> 1, tmp |-> tmp, pv |-> TRUE, v |-> tmp, pd |-> TRUE, d |-> 1]
+                           ELSE [st |-> 2, cnt |-> cnt + 1, sv |-> sv, tmp |-> BOr(tmp, rx * Pow2(cnt), 9), pv |-> FALSE, v |-> 0,
+                                 pd |-> FALSE, d |-> 0])
+                     ELSE [st |-> dst, cnt |-> cnt, sv |-> sv, tmp |-> tmp, pv |-> FALSE, v |-> 0, pd |-> FALSE, d |-> 0]
+                \* second FSM (hand-off), running after the first within the same clock() call
+                hv == IF m.sv = 1 /\ ready # 0 THEN [sv |-> 2, p |-> TRUE, x |-> 1]
+                      ELSE IF m.sv = 2 /\ ready # 0 THEN [sv |-> 0, p |-> TRUE, x |-> 0]
+                      ELSE [sv |-> m.sv, p |-> FALSE, x |-> 0]
+            IN  [st |-> <<m.st, m.cnt, hv.sv, m.tmp>>, prep |-> <<hv.x, m.v, m.d>>,
+                 skip |-> (IF hv.p THEN {} ELSE {1}) \cup (IF m.pv THEN {} ELSE {2}) \cup (IF m.pd THEN {} ELSE {3})]
+      [] kind = "ClockSyncFSM" ->
+            \* ins: start, stop ; outs: sync, active
+            IF s = 0 THEN (IF iv[1] # 0 THEN [st |-> 1, prep |-> <<1, 1>>, skip |-> {}] ELSE [st |-> 0, prep |-> <<0, 0>>, skip |-> {}])
+            ELSE (IF iv[2] # 0 THEN [st |-> 0, prep |-> <<0, 0>>, skip |-> {}] ELSE [st |-> 1, prep |-> <<0, 1>>, skip |-> {}])
 
 =============================================================================
